@@ -326,7 +326,7 @@ def compositions(n):
            "of 2 B .. 70 KiB (thorough: 2 MiB), batched segments (hold) - strict executor with stall detection.")
 def c03(tier, rng):
     out = []
-    sp = sub_prefix()
+    sp = sub_prefix() + " ; start 9 0 ping ; poll 9"
     n = [0]
 
     def add(stream, cuts, tags, tail=" ; pollstream 0 ; pollstream 0 ; pollstream 0 ; pollstream 0", hold=False):
@@ -334,7 +334,7 @@ def c03(tier, rng):
         body = " ; ".join(evs)
         if hold:
             body = "hold ; " + body + " ; release"
-        out.append(case("f%d" % n[0], sp + " ; " + body + tail, tags, stream_len=len(stream), chunks=len(cuts)))
+        out.append(case("f%d" % n[0], sp + " ; " + body + tail + " ; poll 9", tags, stream_len=len(stream), chunks=len(cuts)))
         n[0] += 1
     # exhaustive compositions of a short stream: PINGRESP + short PUBLISH + PUBREL
     stream = M.pingresp() + M.publish(b"t", b"x", ps=[(11, 1)]) + M.pubrel(2)
@@ -482,6 +482,10 @@ def c04(tier, rng):
         for cause in ("eof", "rerr"):
             out.append(case("fault-%s-%d" % (cause, k), phases["running"] + " ; deliver %s ; %s ; poll 0 ; poll 1 ; poll 2"
                             % (hx(exch[:k]), cause), ["fault", cause]))
+    for nm, pk in (("puback", M.puback(7, 128)), ("pubrec", M.pubrec(7, 128)), ("pubrec3", M.pubrec(7, 145, form="short3")),
+                   ("pubcomp", M.pubcomp(7, 146)), ("pubrel", M.pubrel(7, 146))):
+        out.append(case("stray-%s" % nm, PRE + " ; deliver %s ; deliver %s ; start 0 0 pub q=1 t=61 ; poll 0 ; deliver %s ; poll 0"
+                        % (hx(pk), hx(pk), hx(M.puback(1))), ["stray-ack"]))
     # a large packet (valid, and one with a malformed tail) all available at once but read a byte at a time
     for nm, big in (("ok", M.publish(b"a", bytes(i % 251 for i in range(12000)), ps=[(11, 1)])),
                     ("bad", M.packet(0x30, M.binf(b"a") + b"\x00" * 9000)[:-1] + b"\xff" + b"\x40\xff\xff\xff\xff\x7f")):
